@@ -71,10 +71,19 @@ def group_predicate(res, base, rs):
             fp = first_part(c)
             if fp is not None and fp.get("speech") == want:
                 continue
-            # known finding F10: the first part shares its reading (its span) with a suffix / counter that heads the lattice in this context
-            if fp is not None and fp["reading"] in readings:
-                res.known("F10", f"{ctx} context adds candidates that begin with a word sharing its reading with a head {'suffix' if ctx == 'ForeignWord' else 'counter'} "
-                                 f"instead of beginning with that {'suffix' if ctx == 'ForeignWord' else 'counter'} (e.g. prefix 新 and suffix 心 both read しん, input しんは: 新は)")
+            # known finding F10 (call site: Graph::is_mergeable_ancillary judges by POSITION): the candidate's head is an ordinary node of the
+            # normal lattice, but a later ancillary part exists only in this context's lattice - it was merged because the context-enabled
+            # head suffix / counter (or a word chained to it) ends at the position before it, and it then also connects to other paths
+            normal_nodes = {(end, ln["node"].get("surface"), ln["node"].get("reading"), json.dumps(ln["node"].get("speech"), sort_keys=True))
+                            for end, at in enumerate(rs["Normal"]["lattice"]) for ln in at if ln["node"].get("kind") == "word"}
+            pos, keys = 0, []
+            for pt in c["nodes"][1:-1]:
+                pos += len(pt["reading"])
+                if pt["kind"] == "word":
+                    keys.append((pos - 1, pt["surface"], pt["reading"], json.dumps(pt["speech"], sort_keys=True)))
+            if fp is not None and keys and keys[0] in normal_nodes and any(k not in normal_nodes for k in keys[1:]):
+                res.known("F10", f"{ctx} context adds candidates that do not begin with a {'suffix' if ctx == 'ForeignWord' else 'counter'}: an ancillary word merged only because a head "
+                                 f"{'suffix' if ctx == 'ForeignWord' else 'counter'} ends before it also continues other paths (e.g. prefix 新 and suffix 心 both read しん, input しんは: 新は)")
                 continue
             res.violation(f"{ctx} context adds {c['text']!r}, which does not begin with a {'suffix' if ctx == 'ForeignWord' else 'counter'}",
                           {"kind": "added_begin", "query": base, "context": ctx, "candidate": c["text"], "first_part": fp})
